@@ -144,10 +144,13 @@ pub fn catalog(o: &CatOpts) -> Vec<Instr> {
             out.push(Instr::Mov(Opnd::Mem(W::W, *m), Opnd::Seg(s)));
         }
     }
-    // xchg: 10 forms
+    // xchg: 10 forms (incl. a register with itself and the two halves of one register)
     for a in 0..8 {
         out.push(Instr::Xchg(Opnd::R8(a), Opnd::R8((a + 3) % 8)));
         out.push(Instr::Xchg(Opnd::R16(a), Opnd::R16((a + 5) % 8)));
+        out.push(Instr::Xchg(Opnd::R8(a), Opnd::R8(a)));
+        out.push(Instr::Xchg(Opnd::R16(a), Opnd::R16(a)));
+        out.push(Instr::Xchg(Opnd::R8(a), Opnd::R8((a + 4) % 8)));
         out.push(Instr::Xchg(Opnd::R8(a), lb()));
         out.push(Instr::Xchg(lb(), Opnd::R8(a)));
         out.push(Instr::Xchg(Opnd::R16(a), lw()));
